@@ -43,16 +43,23 @@ class Terminal(Expr):
         f = mapping.get(self)
         # No mapping, trying to evaluate self as a constant
         if f is None:
-            try:
+            # Only a terminal that knows its own value can be converted:
+            # the default Expr.__float__ evaluates the expression, which
+            # would come straight back here and recurse without bound.
+            if (
+                type(self).__float__ is not Expr.__float__
+                or type(self).__complex__ is not Expr.__complex__
+            ):
                 try:
-                    f = float(self)
-                except TypeError:
-                    f = complex(self)
-                if derivatives:
-                    f = 0.0
-                return f
-            except Exception:
-                pass
+                    try:
+                        f = float(self)
+                    except TypeError:
+                        f = complex(self)
+                    if derivatives:
+                        f = 0.0
+                    return f
+                except Exception:
+                    pass
             # If it has an ufl_evaluate function, call it
             if hasattr(self, "ufl_evaluate"):
                 return self.ufl_evaluate(x, component, derivatives)
